@@ -14,7 +14,10 @@ _files = {}
 
 
 def ident(obj) -> int:
-    """small stable integer for an object (kept alive so ids are not reused)"""
+    """small stable integer for an object (kept alive so ids are not reused); nothing is
+    kept unless a trace file is being written"""
+    if not os.environ.get("SMPL_EXTRACT_VERIF_LOG"):
+        return 0
     k = id(obj)
     if k not in _ids:
         _ids[k] = len(_ids) + 1
